@@ -437,7 +437,7 @@ impl Monitor for C09 {
             if idx as usize / f.len() % 2 == 0 { t } else { ANode::doc(vec![t]) }
         } else {
             let mut cfg = GenCfg::default();
-            cfg.max_nodes = *rng.pick(&[4, 10, 25]);
+            cfg.max_nodes = if crate::engine::legs_mode() { 4 } else { *rng.pick(&[4, 10, 25]) };
             cfg.max_depth = *rng.pick(&[3, 5, 8]);
             cfg.ns_mode = if rng.chance(1, 3) { NsMode::Wild } else { NsMode::Consistent };
             cfg.pct_unns_under_default = 2;
